@@ -8,16 +8,17 @@ import (
 
 // insPool returns the instruction pool shared by C14/C15: every opcode with boundary arguments.
 func insPool(full bool) []codec.Ins {
-	syms := []string{"a", "foo"}
+	// "a%d" / "%s%%": a symbol is arbitrary bytes; a printf verb in it must come out of the disassembler verbatim
+	syms := []string{"a", "foo", "a%d"}
 	ints := []uint32{0, 1, 255, 256, 65535}
 	if full {
-		syms = []string{"a", "foo", "a_1", strings.Repeat("s", 254)}
+		syms = []string{"a", "foo", "a_1", "a%d", "100%%", strings.Repeat("s", 254)}
 		ints = []uint32{0, 1, 255, 256, 65535, 65536, 1<<24 - 1, 1 << 24, 1<<32 - 1}
 	}
 	var p []codec.Ins
 	for _, s := range syms {
 		p = append(p, codec.Ins{Op: codec.RELOAD, Sym: s}, codec.Ins{Op: codec.MAP, Sym: s}, codec.Ins{Op: codec.MOVE, Sym: s})
-		for _, t := range []string{"1", "*", "sel"} {
+		for _, t := range []string{"1", "*", "sel", "%s"} {
 			p = append(p, codec.Ins{Op: codec.INCMP, Sym: s, Sel: t})
 		}
 		p = append(p, codec.Ins{Op: codec.MOUT, Sym: s, Sel: "0"}, codec.Ins{Op: codec.MNEXT, Sym: s, Sel: "11"}, codec.Ins{Op: codec.MPREV, Sym: s, Sel: "22"})
